@@ -15,8 +15,8 @@ LEVEL_TEXT = ("Every one of the 16 operation variants of both APIs is called wit
               "TCP server; each byte string the client wrote (cut at the client's own write() boundaries) must satisfy the four "
               "structural clauses, checked with a reference CRC that shares nothing with the repository. Random sampling of an "
               "unbounded argument space: no proof of absence.")
-RULE = ("case = (operation kind, accepted arguments, device id, key, session id, timestamp, login-reply length); one "
-        "connection per case. Non-trivial = a frame other than the login frame; distinct by (kind, frame length, signature bytes).")
+RULE = ("case = (operation kind, accepted arguments, device id, key, session id, timestamp, login-reply length), one "
+        "connection per case; plus histories of 2..10 operations on one connection per API type. Non-trivial = a frame other than the login frame; distinct by (kind, frame length, signature bytes).")
 ASSUMPTIONS = [
     "frame boundaries = lengths of the client's StreamWriter.write calls (harness-side tap), content from the socket",
     "login replies of 12..1024 bytes carrying the session id at offset 8 (the statement's precondition)",
@@ -74,6 +74,49 @@ def make_body(sub):
     return body
 
 
+async def run_history(rep, case, sub):
+    """Several operations in a row on one connection per API type: every frame of the whole history is checked."""
+    dev = await env.device()
+    clients = {}
+    try:
+        for idx, op in enumerate(case["ops"]):
+            kind, a = op["kind"], op["args"]
+            typ = ops.api_type(kind)
+            if typ not in clients:
+                clients[typ] = ops.Client(dev, typ, case["device_id"], f"{case['key']:02x}")
+                await clients[typ].connect()
+            cl = clients[typ]
+            n0 = len(cl.conn.frames)
+            cl.conn.script.clear()
+            cl.conn.script.extend(ops.good_script(kind, a, op["session"], salt=op.get("salt", 1)))
+            with vclock.frozen_epoch("UTC", case["ts"] + 3 * idx):
+                status, res = await cl.call(kind, a)
+            if status != "ok":
+                raise Violation(f"C01/accepted-arguments-raise/op={kind}/{type(res).__name__ if res is not None else status}/in-history",
+                                case, "frames written", f"{status}: {res!r}")
+            for i, (f, flag) in enumerate(zip(cl.conn.frames[n0:], cl.conn.flags[n0:])):
+                rep.tick(sub, key=(kind, len(f), f[-4:].hex()), nontrivial=i > 0 and idx > 0,
+                         sample={"op": kind, "position_in_history": idx, "len": len(f), "sig": f[-4:].hex()},
+                         labels=("frame-of-later-operation",) if idx > 0 else ())
+                errs = ([flag + "-bytes"] if flag else []) + wire.structural_errors(f)
+                if errs:
+                    raise Violation(f"C01/{'+'.join(errs)}/op={kind}/frame{lenclass(len(f))}/in-history", case,
+                                    "every frame of the history well-formed",
+                                    {"op_index": idx, "frame_index": i, "len": len(f), "errors": errs, "frame": f.hex()[:300]})
+    finally:
+        for cl in clients.values():
+            await cl.close()
+
+
+def strat_history():
+    from . import c03
+    op = st.sampled_from(ops.KINDS).flatmap(lambda k: st.builds(
+        lambda a, sess, salt: {"kind": k, "args": a, "session": sess, "salt": salt},
+        gen.op_args(k).map(_resolvable), gen.sessions, st.integers(1, 100)))
+    return st.builds(lambda oplist, dev_id, key, ts: {"ops": oplist, "device_id": dev_id, "key": key, "ts": ts},
+                     st.lists(op, min_size=2, max_size=10), gen.device_ids, gen.keys_int, st.integers(300_000, 2 ** 32 - 400_000))
+
+
 def strat_for(kind):
     def build():
         return st.builds(
@@ -99,4 +142,6 @@ def subchecks(tier):
     for kind in ops.KINDS:
         nn = n if not kind.startswith("breeze") else n // 2
         subs.append(Sub(f"op={kind}", make_body(f"op={kind}"), strategy=strat_for(kind), n=nn, shards=shards))
+    subs.append(Sub("histories", lambda rep, case: net.run(run_history(rep, case, "histories")), strategy=strat_history,
+                    n=20_000 if tier == "thorough" else 250, shards=16 if tier == "thorough" else 2))
     return subs
